@@ -78,6 +78,22 @@ Proof.
 Qed.
 Print Assumptions C17_recv_buffer_bounded.
 
+(* "Exactly once ... for any message sizes", receive side, for EVERY item stream: on a connection
+   that is up, an EOF packet that is not bad input always hands exactly one message to
+   onReceive — the buffered bytes followed by the packet's, also when that is the empty
+   message.  (recvRoutine delivers only `msgBytes != nil`: the theorem rests on ch.recving never
+   being a nil slice, whatever sizes went through it before; C17_nil_buffer_drops_empty_msg
+   below shows what a nil buffer does.) *)
+Theorem C17_eof_packet_delivers_one :
+  forall (descs : list (Z * Z)) (items : list witem) (p : packet),
+    let r := recv_items (new_receiver descs) items in
+    r_stopped r = false -> item_bad r (WMsg p) = false -> p_eof p = true ->
+    exists rc, find_rchan (r_chans r) (p_ch p) = Some rc /\
+      r_stopped (recv_item r (WMsg p)) = false /\
+      r_delivered (recv_item r (WMsg p)) = r_delivered r ++ [(p_ch p, rc_recving rc ++ p_data p)].
+Proof. exact eof_packet_delivers_from_new. Qed.
+Print Assumptions C17_eof_packet_delivers_one.
+
 (* "Oversized, unknown channel, undecodable … at worst that peer is disconnected": in every
    stream, the first bad item (unknown channel id incl. ids outside a byte, unknown packet type,
    oversize or undecodable packet, data beyond the channel's capacity) stops that connection,
@@ -158,6 +174,28 @@ Example C17_bad_packet_nonvacuous :
   item_bad (recv_items r pre) WUnknown = true /\
   item_bad (recv_items r pre) (pk 1 true [8; 9]%N) = false /\
   r_delivered (recv_items r (pre ++ pk 1 false [8; 9; 10]%N :: [pk 1 true []])) = [(1, [1; 2; 3; 4]%N)].
+Proof. vm_compute. repeat split. Qed.
+
+(* receive side, sizes across the buffer: a message of several packets, then an empty message,
+   then a one-byte message on the same channel — three deliveries, the empty one included *)
+Example C17_eof_nonvacuous :
+  let pk := fun e d => WMsg {| p_ch := 1; p_eof := e; p_data := d |} in
+  let r := recv_items (new_receiver [(1, 8)]) [pk false [1; 2; 3]%N; pk false [4; 5; 6]%N; pk true [7; 8]%N] in
+  r_stopped r = false /\ item_bad r (pk true []) = false /\
+  r_delivered (recv_items r [pk true []; pk true [9]%N]) =
+    [(1, [1; 2; 3; 4; 5; 6; 7; 8]%N); (1, []); (1, [9]%N)].
+Proof. vm_compute. repeat split. Qed.
+
+(* why the buffer must never become nil: were ch.recving nil when an empty message completes
+   (e.g. after a reset to nil instead of [:0]), append(nil, empty...) is nil, recvPacketMsg
+   returns (nil, nil) and recvRoutine's `msgBytes != nil` test drops the message: the
+   connection stays up and the next message is delivered in its place *)
+Example C17_nil_buffer_drops_empty_msg :
+  let pk := fun e d => WMsg {| p_ch := 1; p_eof := e; p_data := d |} in
+  let r := {| r_chans := [{| rc_id := 1; rc_cap := 8; rc_buf := None |}]; r_stopped := false; r_delivered := [] |} in
+  item_bad r (pk true []) = false /\
+  r_delivered (recv_item r (pk true [])) = [] /\ r_stopped (recv_item r (pk true [])) = false /\
+  r_delivered (recv_items r [pk true []; pk true [9]%N]) = [(1, [9]%N)].
 Proof. vm_compute. repeat split. Qed.
 
 (* reactor guards: a maximal valid proposal / valid-block message pass and are in bounds … *)
